@@ -365,8 +365,22 @@ pub fn simulate_roots(prog: &Program, roots: &[Ty]) -> SimOut {
 /// position). Box shares the node of its content; PhantomData contributes nothing; arguments at
 /// skipped parameter positions of a definition are not recorded by scale-info.
 fn consulted_positions(prog: &Program, t: &Ty, out: &mut Vec<(Ty, bool)>) {
+    consulted_positions_in(prog, t, None, out)
+}
+
+/// `args`: when given, associated types are expanded under this instantiation and every
+/// component of the expansion is recorded as a non-parameter position.
+fn consulted_positions_in(prog: &Program, t: &Ty, args: Option<&[Ty]>, out: &mut std::vec::Vec<(Ty, bool)>) {
     use Ty::*;
+    let consulted_positions = |prog: &Program, t: &Ty, out: &mut std::vec::Vec<(Ty, bool)>| consulted_positions_in(prog, t, args, out);
     match t {
+        Assoc(..) if args.is_some() => {
+            let closed = t.subst(args.unwrap(), prog);
+            let mut inner = std::vec::Vec::new();
+            consulted_positions_in(prog, &closed, None, &mut inner);
+            out.push((t.clone(), false));
+            out.extend(inner.into_iter().map(|(e, _)| (e, false)));
+        }
         Box(x) | Alias(_, x) => {
             // same registry node as the content
             let mut inner = std::vec::Vec::new();
@@ -462,7 +476,7 @@ fn cf_inst(prog: &Program, sim: &SimOut, d: usize, args: &[Ty]) -> Option<String
             return Some("CF-3: parameter directly under a transparent wrapper".into());
         }
         let mut pos = Vec::new();
-        consulted_positions(prog, &f.ty, &mut pos);
+        consulted_positions_in(prog, &f.ty, Some(args), &mut pos);
         if f.compact {
             pos.push((Ty::Compact(f.ty.clone().b()), false));
         }
